@@ -32,3 +32,10 @@ package types
 //@   trusted
 //@   returns err
 //@ end
+// event tag built by string concatenation (pure)
+//@ func ActionTag
+//@   property C13
+//@   trusted
+//@   returns tag
+//@   nopanic
+//@ end
